@@ -629,7 +629,9 @@ func cmdRun(fl map[string]string) {
 			var res *Result
 			select {
 			case res = <-done:
-			case <-time.After(histTimeout):
+			// (20 s for an ordinary history; long ones get 100 ms per operation on top: an 1 800-operation history takes 7 s on an idle
+			// machine and was cut off at 20 s under load, which raised an alarm on the unchanged tree in a thorough run)
+			case <-time.After(histTimeout + time.Duration(len(h.Ops))*100*time.Millisecond):
 				hung.Store(true)
 				hungCount.Add(1)
 				res = &Result{}
